@@ -8,10 +8,10 @@ TIE = "Dawgs.C17.Tie."
 THEOREMS = {
     "Dawgs.Props.C17": [P + t for t in [
         "pipe_fifo", "pipe_complete", "pipe_writer_never_waits_on_reader",
-        "bf_pipe_refines", "bf_counter_inv", "bf_no_early_exit", "bf_exactly_once", "bf_measure", "bf_terminates",
+        "bf_pipe_refines", "bf_counter_inv", "bf_no_early_exit", "bf_exactly_once", "bf_measure", "bf_terminates", "bf_reaches_return",
         "bf_live_ctx_error_recorded", "bf_error_cancels", "bf_return_joins_workers", "bf_return_no_goroutine_left",
         "limit_skip_window", "range_partition_exact", "seq_helper_eq_spec", "traversePaths_eq_spec", "terminals_eq_spec",
-        "acyclicNodes_eq_spec", "intermediaryPaths_eq_spec", "traversePaths_order_eq_spec", "paths_fit_finite", "c17_seq_paths",
+        "acyclicNodes_eq_spec", "acyclicNodes_reachable_spec", "intermediaryPaths_eq_spec", "traversePaths_order_eq_spec", "paths_fit_finite", "c17_seq_paths",
         "c17_partial", "c17_full",
         # theorems about the protocol BEFORE the repair of finding F14 (cfg.fixed = false)
         "bf_terminates_partial_old", "bf_terminates_refuted_old", "c17_full_old_refuted"]],
@@ -27,6 +27,81 @@ THEOREMS = {
         "visited_filter_testandset_atomic", "uses_c13_checkedAdd_atomic"]],
 }
 STATED_NOT_PROVED = []
+
+
+# Clause map: the statement of C17 (properties.jsonl) split into its clauses; for each, the theorem(s) that prove it for
+# ALL schedules / worker counts / driver trees / fault points / graphs, with the hypotheses they carry — or "tie only".
+CLAUSES = {
+    "parallel BreadthFirst (any number of workers) visits exactly the segments the driver yields sequentially — none lost, none duplicated":
+        "bf_exactly_once: along every schedule the segments handed to the driver are a sub-multiset of the driver tree's nodes (nothing twice, nothing foreign), "
+        "and equal to them when BreadthFirst returns through descentCount = 0; bf_no_early_exit (the coordinator reads 0 only when pipe empty, no worker holds "
+        "work, nothing dropped); bf_counter_inv; bf_pipe_refines. Quantified over every cfg.n, every finite tree, both protocol variants, faults at any call. "
+        "HYPOTHESIS: the driver is a function of the segment (a finite tree). For the library's stateful filters (UniquePathSegmentFilter, FilteredSkipLimit, "
+        "collectors) the per-call atomicity is C13's checkedAdd_atomic over the extracted lock skeleton (Tie.visited_filter_testandset_atomic) and "
+        "counter_passes_exactly; their composition with BreadthFirst is TIE ONLY (suite c17flt: exactly-once against the sequential enumeration on hub DAGs)",
+    "… then returns (success)":
+        "bf_terminates + bf_measure + bf_reaches_return: every reachable non-returned state has an enabled non-environment step, every step of every component "
+        "decreases a Nat bound, and from every reachable state a continuation without environment actions ends returned. HYPOTHESES: cfg.n >= 1; the live "
+        "(repaired) error branch cfg.fixed = true, which is what Tie.order_error_path / skeleton_breadthFirst accept of the source; the Go scheduler eventually "
+        "runs an enabled goroutine (named assumption)",
+    "returns promptly with the first error if the driver, a visitor or the memory limit fails":
+        "the error actions (driverErr, driverErrSilent = context-class error, memErr) are enabled at EVERY driver call of every schedule, so bf_terminates / "
+        "bf_reaches_return cover them; bf_error_cancels (a recorded error implies the traversal context is cancelled, the flag is never cleared, return implies "
+        "cancelled), bf_live_ctx_error_recorded (a context-class error always cancels and is recorded iff the context was live). 'promptly' is proved as a bound on "
+        "the number of atomic steps (bf_measure), wall-clock time is searched only (hang detector). WHICH error is returned ('first') is tie only: the model has an "
+        "error flag, the harness compares the error class. A visitor error is a driver error in the model (PatternMatchDelegate / terminal visitors run inside the driver call)",
+    "… or when the context is cancelled":
+        "the environment action `cancel` is enabled in every state; bf_terminates / bf_reaches_return / bf_measure as above; that nil is returned after a pure "
+        "cancellation is tie only",
+    "leaves no goroutine behind":
+        "bf_return_joins_workers (return only after every worker returned) + bf_return_no_goroutine_left (at return the pipe goroutine has returned or its ctx.Done() "
+        "step is enabled and final), for all schedules and faults; that the context the pipe listens on is the traversal context is the extracted fact "
+        "Tie.order_defers_and_capacity. That the runtime actually runs that last step: searched only (stack dump filtered on traversal/channels frames back to its "
+        "baseline within 10 s with the caller's context kept alive, class goroutine-leak)",
+    "the buffered pipe delivers every submitted value exactly once in submission order":
+        "pipe_fifo (delivered is always a prefix of submitted, same order, positional: no duplicates, no reordering; submitted = delivered ++ buffer) and pipe_complete "
+        "(goroutine returned and never cancelled => delivered = submitted; after close the flush steps are enabled and every non-cancel step decreases a measure), "
+        "over all schedules of writer, reader, context and the pipe goroutine. A cancelled pipe may drop its buffered tail (the prefix property still holds): that is the code's contract",
+    "… and never blocks a writer on a slow reader":
+        "pipe_writer_never_waits_on_reader: in every reachable main-loop state recv is enabled for every value and any k submissions go through with zero reader steps. "
+        "HYPOTHESIS: the writer has not closed and the goroutine has not observed a cancellation (phase = loop); memory is unbounded in the model",
+    "sequential helpers: skip/limit":
+        "limit_skip_window (LimitSkipTracker = drop skip, take limit; all Int skip/limit) and seq_helper_eq_spec (below); filteredSkipLimit_eq_spec + "
+        "counter_passes_exactly for traversal.FilteredSkipLimit (visited set; its descend answers are tie/monitor only)",
+    "sequential helpers: paths (TraversePaths, TraverseIntermediaryPaths)":
+        "seq_helper_eq_spec / traversePaths_eq_spec / intermediaryPaths_eq_spec: for every ordered adjacency, node/descent/path filter, skip, limit and fuel the stack loop "
+        "collects exactly the skip/limit window of the FILTERED DFS candidate sequence (filters first; a rejected node consumes no budget). For TraversePaths the "
+        "candidate sequence is proved equal to an independent recursive definition (maximal acyclic filtered paths, last fetched branch first): "
+        "traversePaths_order_eq_spec, paths_fit_finite, c17_seq_paths. HYPOTHESIS of c17_seq_paths: finite graph (node ids below some N) and enough loop fuel. "
+        "For TraverseIntermediaryPaths the candidate sequence is only defined by the tracker-free DFS itself (no independent characterisation); it does not "
+        "terminate on cyclic graphs without a bounding DescentFilter (the caller's duty; the generator supplies one)",
+    "sequential helpers: terminals and acyclic node sets (AcyclicTraverseTerminals, AcyclicTraverseNodes)":
+        "terminals_eq_spec, acyclicNodes_eq_spec (incl. the root tested outside skip/limit; every candidate passed the node filter before it was counted): result = "
+        "skip/limit window of the filtered DFS candidate sequence, all graphs/filters/skip/limit. For AcyclicTraverseNodes the candidate set has an independent "
+        "characterisation: acyclicNodes_reachable_spec — a node is a candidate iff the node filter accepts it and it is a successor of a node reachable from the root "
+        "(so without skip/limit the result is exactly the accepted reachable node set). HYPOTHESES: no user DescentFilter; the tracker-free DFS has emptied its stack "
+        "within the fuel (true on finite graphs; the tie reports model-out-of-fuel otherwise). For AcyclicTraverseTerminals the candidate sequence is defined only "
+        "by the tracker-free DFS with the visited bitmap (the helper's 'terminal' includes re-reached nodes): no independent characterisation, searched only "
+        "(c17seq monitor + model comparison on cycles, diamonds, self loops, six id alphabets)",
+    "ids of any width":
+        "all models use Nat ids; that the code's visited/seen sets are 64-bit and no id is narrowed: extracted facts Tie.order_visited_sets_64bit, "
+        "Tie.order_no_id_narrowing, Tie.order_visited_set_sites (decide); behaviour on ids congruent mod 2^32 / 2^16 and >= 2^63: tie (id alphabets in c17seq, c17pat, c17flt, c17bf)",
+    "anchors outside the statement (ops.parallelNodeQuery, pattern.Driver)":
+        "pnq_exactly_once, pnq_complete, pnq_measure, pnq_progress_or_O2, pnq_terminates_if_a_worker_survives (HYPOTHESIS: fewer failed queries than workers; "
+        "otherwise observation O2, pnq_O2_witness); range_partition_exact; pattern_driver_eq_spec (work-list expansion = tag-free recursive semantics), with the "
+        "observations O3 / O4 as witnesses (pattern_optional_step_duplicates, pattern_mixed_direction_drops). Information, not part of the claim",
+    "searched only (tie)":
+        "that the Lean models are what the Go code does: line diff model = implementation and spec monitors on every generated case of the nine suites; the order-fact "
+        "extractor (syntactic skeleton of BreadthFirst / BufferedPipe / Submit / Receive, glue tables) closes the assumptions about statement order by decide. "
+        "Also searched only: composition of the stateful library filters/collectors with BreadthFirst (c17flt); which error value is returned; nil on cancellation; "
+        "wall-clock promptness; real goroutine exit; the PathSegment.size roll-up race (observation under -race); FilteredSkipLimit's descend answers; "
+        "an independent spec for terminals and intermediary paths (acyclic node sets have one: acyclicNodes_reachable_spec); LightweightDriver and ops.Operation[T] (not modelled, exempt by name)",
+    "named assumptions":
+        "numWorkers >= 1; the driver is a finite tree (pure function of the segment), one injected fault per run in the tie; Go channel/select/context/atomic/WaitGroup "
+        "semantics as atomic rendezvous and atomic counters; the scheduler eventually runs an enabled goroutine; gammazero/deque is a list; unbounded memory for the "
+        "pipe buffer; graph.ID arithmetic of parallelNodeQuery does not overflow uint64; the visited set's test-and-set is atomic (C13 checkedAdd_atomic over the "
+        "extracted lock skeleton); the fetch order of the database is the edge-id order (the DB fake)",
+}
 
 
 def regen(ctx):
@@ -154,6 +229,7 @@ def race_pass(ctx, stats):
 def extra_coverage(ctx, stats):
     cov = {
         "stated_not_proved": STATED_NOT_PROVED,
+        "clause_map": CLAUSES,
         "partial_runtime_aspects": [
             "goroutine cleanup: in the LTS every worker has returned and the pipe goroutine has returned or is enabled to (bf_return_no_goroutine_left); that the Go "
             "runtime really runs that last step is observed with the CALLER'S CONTEXT KEPT ALIVE after return (success or error): a stack dump filtered on dawgs traversal / "
@@ -277,7 +353,7 @@ SPEC = {
                      "the visited set's test-and-set is one atomic action: property C13's checkedAdd_atomic over the lock skeleton of cardinality/lock.go "
                      "(Dawgs.C17.Tie.visited_filter_testandset_atomic re-checks the extracted skeleton on every C17 run)"],
     "assumptions": ["numWorkers >= 1 (numWorkers = 0 hangs: outside the quantifier 1..N)",
-                    "the driver is a function of the segment (a finite tree); drivers with side effects across segments (UniquePathSegmentFilter) are not modelled",
+                    "the driver is a function of the segment (a finite tree); for the library's stateful filters (UniquePathSegmentFilter, FilteredSkipLimit, collectors) only the per-call atomicity is proved (C13 checkedAdd_atomic, counter_passes_exactly); their composition with BreadthFirst is covered by the tie (c17flt)",
                     "graph.ID arithmetic in parallelNodeQuery does not overflow uint64 (modelled on Nat)",
                     "fault injection: one fault per run (the k-th driver call), the driver otherwise a pure function of the segment",
                     "liveness is stated as: every non-returned reachable state has an enabled step and every step decreases a Nat bound; that the Go scheduler eventually runs an enabled goroutine is trusted"],
@@ -289,19 +365,23 @@ MANIFEST = {
     "technique": "Lean 4 labelled-transition-system proofs (invariants by induction over all paths; Nat termination measure; deadlock freedom) for "
                  "BufferedPipe and the BreadthFirst coordinator/worker protocol, tied to the source by a go/ast order-fact extractor (decide) and by "
                  "differential + monitor runs of the real code under scripted, concurrent and fault-injected schedules",
-    "text": "Lean theorems over ALL interleavings, all worker counts N>=1, all finite driver trees and a fault (driver error, memory limit, context cancel) at any "
-            "driver call: the pipe delivers a prefix of what was submitted in order and everything once closed, and never blocks the writer; descentCount equals "
-            "queued + in-expansion + counted-not-yet-submitted segments; the coordinator reads 0 only when everything was expanded; segments are expanded at most "
-            "once and exactly the tree on a clean exit; an error of ANY class cancels, is reported (a context-class error iff the traversal context was live) after "
-            "all workers joined; every step decreases a bound and some step is always enabled until return. The live model is the repaired worker error branch "
-            "(finding F14: before the repair a context.Canceled/ErrContextTimedOut-class driver error on a live context hung BreadthFirst; kept as a refutation "
-            "theorem about the old definition, and the order-fact tie rejects the old source shape). "
-            "Sequential helpers (TraversePaths, AcyclicTraverseTerminals, AcyclicTraverseNodes, TraverseIntermediaryPaths): for every graph, node/descent/path filter, skip "
-            "and limit the stack loop returns exactly the skip/limit window of the FILTERED DFS candidate sequence (a rejected node never consumes budget); "
-            "LimitSkipTracker window and the parallelNodeQuery range partition are proved for all inputs. parallelNodeQuery (LTS, all schedules, worker counts and failure "
-            "patterns): every id range queried exactly once, every failure merged once, termination whenever a worker survives; FilteredSkipLimit = the skip/limit window "
-            "(counter results independent of the interleaving); pattern.Driver work-list expansion = tag-free recursive pattern semantics.",
-    "note": "Partial: goroutine cleanup and promptness are observed by the harness (NumGoroutine settles, hang detector), not proved; the PathSegment.size roll-up "
-            "race is outside the LTS (counted under -race in the thorough tier). Trusted: Lean "
-            "kernel, Go channel/select/atomic semantics, the syntactic extractor, the harness.",
+    "text": "Lean theorems over ALL interleavings, all worker counts N>=1, all finite driver trees (the driver a pure function of the segment) and a fault (driver/visitor "
+            "error, context-class error, memory limit, context cancel) at any driver call: the pipe delivers a prefix of what was submitted in order, everything once closed and "
+            "not cancelled, and never blocks the writer while it is in its main loop; descentCount = queued + in-expansion + counted-not-yet-submitted segments; the coordinator "
+            "reads 0 only when everything was expanded; segments are expanded at most once and exactly the tree on exit through zero; an error of any class cancels and is recorded "
+            "(a context-class error iff the traversal context was live); BreadthFirst returns only after every worker returned, with the pipe goroutine returned or enabled to; "
+            "every step decreases a Nat bound, some step is always enabled until return and every reachable state has a continuation to return (live protocol = the repaired "
+            "worker error branch, commit b692f10, which is the only source shape the order-fact tie accepts; the pre-repair hang is kept as a refutation theorem about the old "
+            "definition). Sequential helpers: for every graph, node/descent/path filter, skip and limit the stack loop returns the skip/limit window of the filtered DFS candidate "
+            "sequence; for TraversePaths that sequence equals the recursive definition of the maximal acyclic filtered paths on every finite graph, and for AcyclicTraverseNodes "
+            "(no user DescentFilter, DFS finished) the candidates are exactly the accepted nodes reachable over >= 1 edge (c17_full is unconditional on the models). Also proved (anchors outside the statement): LimitSkipTracker window, range partition and LTS of parallelNodeQuery (termination when a worker survives), "
+            "FilteredSkipLimit visited set, pattern.Driver expansion = recursive semantics. See coverage.clause_map for clause -> theorem -> hypotheses.",
+    "note": "Searched only (tie): that the models are the Go code (nine differential suites + spec monitors + syntactic order/glue facts by decide); composition of the library's "
+            "stateful filters and collectors with BreadthFirst (c17flt; per-call atomicity is C13's checkedAdd_atomic); which error value is returned and nil on cancellation; "
+            "wall-clock promptness and the runtime really exiting goroutines (hang detector, goroutine-leak oracle with the caller's context kept alive); an independent spec "
+            "for terminals / intermediary paths (their spec is the tracker-free DFS candidate sequence; acyclic node sets = accepted reachable nodes is proved); "
+            "FilteredSkipLimit descend answers; the "
+            "PathSegment.size roll-up race (observation under -race). Observations outside the statement: O2 (parallelNodeQuery blocks when every worker failed), O3/O4 "
+            "(pattern.Driver optional-step duplicates, direction change). No open finding: C17:BreadthFirst:swallow-hang is fixed (b692f10). Trusted: Lean kernel, Go "
+            "channel/select/atomic semantics, scheduler fairness, the extractor, the harness.",
 }
